@@ -137,6 +137,10 @@ fn gen_c01(ctx: &mut Ctx) {
     }
     // every message type, and addresses across the range, at length 0 and 1
     for t in 0..=255u16 {
+        for a in [0u16, 1, 0xFFFF, 0x00FF, 0xFF00] {
+            rt_case(ctx, a, t as u8, &[], a % 2 == 0, "all-types");
+            rt_case(ctx, a, t as u8, &[(t as u8) ^ 0x5A], a % 2 == 1, "all-types");
+        }
         rt_case(ctx, 0x1234, t as u8, &[], false, "all-types");
         rt_case(ctx, 0xFEDC, t as u8, &[t as u8], true, "all-types");
     }
@@ -276,6 +280,43 @@ fn gen_c02(ctx: &mut Ctx) {
             };
             let encs: Vec<Vec<u8>> = if own_enc != enc && own_enc.len() > 10 { vec![enc.clone(), own_enc] } else { vec![enc.clone()] };
             for enc in encs {
+            // through Frame::read as well (a reader-side limit or resynchronisation only shows there): for the
+            // maximum-length frames and the frames that embed another frame, every deletion / duplication and the
+            // structural substitutions; the line read must fail or give the original
+            if nl && (d.len() >= 250 || fi >= 9) {
+                let orig_rd = format!("OK {}.{}.{}", a, t, hex_of_bytes(d));
+                let mut emit_rd = |ctx: &mut Ctx, mut s: Vec<u8>, class: &str| {
+                    if s.contains(&b'\n') && s.last() != Some(&b'\n') {
+                        return; // the damage split the line: the reader stops at the first LF, that is another case
+                    }
+                    if s.last() != Some(&b'\n') {
+                        s.push(b'\n');
+                    }
+                    let line = format!("RD 1 {}", hex_of_bytes(&s));
+                    let res = ctx.case(line.clone(), true, class);
+                    let first = res.split(" | ").next().unwrap_or("");
+                    let ok = first.starts_with("ER") || first == orig_rd;
+                    ctx.monitor(ok, "C02-reject-or-original", &line[..line.len().min(400)], &format!("original [{}] got [{}]", &orig_rd[..orig_rd.len().min(60)], &first[..first.len().min(80)]));
+                };
+                let step = if d.len() >= 250 && !ctx.tier_thorough { 3 } else { 1 };
+                let mut i = 0;
+                while i < enc.len() - 2 {
+                    let mut s = enc.clone();
+                    s.insert(i, enc[i]);
+                    emit_rd(ctx, s, "read-path-duplicate");
+                    let mut s = enc.clone();
+                    s.remove(i);
+                    emit_rd(ctx, s, "read-path-delete");
+                    for c in [b':', b'0', b'F'] {
+                        if enc[i] != c {
+                            let mut s = enc.clone();
+                            s[i] = c;
+                            emit_rd(ctx, s, "read-path-subst");
+                        }
+                    }
+                    i += step;
+                }
+            }
             let full_alphabet = d.len() <= 2 && (ctx.tier_thorough || fi < 4);
             let mut emit = |ctx: &mut Ctx, s: Vec<u8>, class: &str| {
                 if s == enc {
@@ -814,6 +855,25 @@ fn gen_c04(ctx: &mut Ctx) {
                 }
                 f2m_case(ctx, 3, t, &[b0 as u8, b1 as u8], false, "two-byte-sweep");
             }
+        }
+    }
+    // data chunks that merely START like a configuration block (each of the 11 (family, id) pairs, other bytes
+    // arbitrary), and the genuine blocks themselves: forwarded byte for byte
+    for (f, id) in [(4u8, 0x47u8), (4, 0x4D), (4, 0x20), (4, 0x62), (4, 0x61), (4, 0x26), (8, 0xB1), (8, 0xB2), (8, 0xB4), (8, 0xB5), (8, 0xB9)] {
+        for k in 0..6u16 {
+            let mut d = rng.bytes(16);
+            d[0] = f;
+            d[1] = id;
+            f2m_case(ctx, [0u16, 16, 0x100, 3][k as usize % 4], 0, &d, k % 2 == 0, "looks-like-config-block");
+            f2m_case(ctx, 0, 0, &d[..2 + k as usize * 2], k % 2 == 1, "looks-like-config-block");
+        }
+    }
+    // type-0 data of every length 17..=255 in owned buffers (some with spare capacity) and borrowed ones
+    for len in 17..=255usize {
+        f2m_case(ctx, (len * 16 % 65536) as u16, 0, &rng.bytes(len), false, "long-owned-data");
+        if len % 5 == 0 {
+            f2m_case(ctx, 16, 0, &rng.bytes(len), true, "long-borrowed-data");
+            f2m_case(ctx, 3, (len % 7 + 1) as u8, &rng.bytes(len), false, "long-owned-unknown");
         }
     }
     // every recognised row x addresses across the whole range
